@@ -1,51 +1,85 @@
-(** C18 — Kubernetes: well-formed watch histories yield a right trace (modulo idempotent calls). *)
+(** C18 — Kubernetes: well-formed histories of watch events and relists yield a right trace (modulo idempotent calls). *)
 From HV Require Import Base.Prelude C18.Model C18.ModelK8s C18.Spec C18.Proofs.
 
-(** What the API server guarantees about the events of one object, relative to
-    what the informer's store holds of it:
-    - a Deleted event carries the last state of the object (same auth class as stored);
-    - for an object that stays in the provider's auth class, the generation changes
-      exactly when the rules change (metadata.generation counts spec changes). *)
-Definition k8s_ev_wf (s : kstore) (e : k8s_event) : bool :=
-  let o := snd e in
-  match s (k_uid o), fst e with
-  | None, _ => true
-  | Some old, WDeleted => Bool.eqb (k_cls o) (k_cls old)
-  | Some old, _ =>
-    if k_cls o && k_cls old
-    then Bool.eqb (Nat.eqb (k_gen o) (k_gen old)) (Nat.eqb (k_cid o) (k_cid old))
-    else true
+(** ** Guards and well-formedness *)
+
+(** no other name than [n] holds an object with UID [u] *)
+Definition uid_free (nn : nat) (s : kstore) (n u : nat) : bool :=
+  forallb (fun n' => Nat.eqb n' n || match s n' with Some x => negb (Nat.eqb (k_uid x) u) | None => true end) (seq 0 nn).
+
+(** C18-F7: a relist finds a stored object missing (tombstone): the unrepaired provider panics *)
+Definition k8s_atom_guard_F7 (s : kstore) (a : katom) : bool :=
+  match a with ATomb n => match s n with Some _ => true | None => false end | _ => false end.
+
+(** C18-F8: an object arrives under a name whose stored object has another UID
+    (deleted and re-created while the watch was broken) *)
+Definition k8s_atom_guard_F8 (s : kstore) (a : katom) : bool :=
+  match a with
+  | AUpsert o | ADelete o => match s (k_name o) with Some old => negb (Nat.eqb (k_uid old) (k_uid o)) | None => false end
+  | ATomb _ => false
   end.
 
-Definition ks_step (s : kstore) (e : k8s_event) : kstore :=
-  let o := snd e in
-  match fst e with
-  | WAdded | WModified => ks_set s (k_uid o) (Some o)
-  | WDeleted => match s (k_uid o) with Some _ => ks_set s (k_uid o) None | None => s end
+(** What the API server guarantees about what it delivers, relative to what was last told about the name:
+    names are within the universe, UIDs are unique across names; a Deleted event carries the object's last
+    auth class; for an object that stays in the provider's class the generation changes exactly when the rules change. *)
+Definition k8s_atom_wf (nn : nat) (s : kstore) (a : katom) : bool :=
+  match a with
+  | AUpsert o =>
+    Nat.ltb (k_name o) nn && uid_free nn s (k_name o) (k_uid o) &&
+    match s (k_name o) with
+    | None => true
+    | Some old => if Nat.eqb (k_uid old) (k_uid o) && k_cls o && k_cls old
+                  then Bool.eqb (Nat.eqb (k_gen o) (k_gen old)) (Nat.eqb (k_cid o) (k_cid old)) else true
+    end
+  | ADelete o =>
+    uid_free nn s (k_name o) (k_uid o) &&
+    match s (k_name o) with None => true | Some old => Bool.eqb (k_cls o) (k_cls old) end
+  | ATomb _ => true
   end.
 
-Fixpoint k8s_wf_from (s : kstore) (h : list k8s_event) : bool :=
+Fixpoint k8s_atoms_pred (p : kstore -> katom -> bool) (s : kstore) (atoms : list katom) : bool * kstore :=
+  match atoms with
+  | [] => (true, s)
+  | a :: r => let rr := k8s_atoms_pred p (ks_atom s a) r in (p s a && fst rr, snd rr)
+  end.
+
+Fixpoint k8s_all_from (p : kstore -> katom -> bool) (nn : nat) (s : kstore) (h : list k8s_event) : bool :=
   match h with
   | [] => true
-  | e :: r => k8s_ev_wf s e && k8s_wf_from (ks_step s e) r
+  | e :: r => let x := k8s_atoms_pred p s (atoms_of nn s e) in fst x && k8s_all_from p nn (snd x) r
   end.
 
-Definition k8s_wf (h : list k8s_event) : bool := k8s_wf_from ks_empty h.
+Definition k8s_wf (nn : nat) (h : list k8s_event) : bool := k8s_all_from (k8s_atom_wf nn) nn ks_empty h.
+Definition k8s_guard_F7 (nn : nat) (h : list k8s_event) : bool :=
+  negb (k8s_all_from (fun s a => negb (k8s_atom_guard_F7 s a)) nn ks_empty h).
+Definition k8s_guard_F8 (nn : nat) (h : list k8s_event) : bool :=
+  negb (k8s_all_from (fun s a => negb (k8s_atom_guard_F8 s a)) nn ks_empty h).
+
+(** all atoms of a history, in order *)
+Fixpoint k8s_atoms_from (nn : nat) (s : kstore) (h : list k8s_event) : list katom :=
+  match h with
+  | [] => []
+  | e :: r => atoms_of nn s e ++ k8s_atoms_from nn (fold_left ks_atom (atoms_of nn s e) s) r
+  end.
 
 Section K8s.
 Variable O : oracle.
 Hypothesis Hdel : forall s, deletable O s = true.
+Variable f7 f8 : bool.
+Variable nn : nat.
 Let acc := accepts O.
 
-(** invariants: the store is keyed by UID; what is loaded is the latest valid
-    content seen; only objects of the provider's class that the store knows are
-    loaded; a stored object of the class whose rules the processor accepts is loaded *)
-Definition K0 (s : kstore) : Prop := forall u old, s u = Some old -> k_uid old = u.
+(** invariants: the store is keyed by name, within the universe, UIDs unique; what is
+    loaded is the latest valid content seen; only stored objects of the provider's
+    class are loaded; a stored object of the class whose rules the processor accepts is loaded *)
+Definition K0 (s : kstore) : Prop :=
+  (forall n old, s n = Some old -> k_name old = n /\ n < nn) /\
+  (forall n n' x y, s n = Some x -> s n' = Some y -> k_uid x = k_uid y -> n = n').
 Definition K1 (a : amap) (m : seen_map) : Prop := forall u, a (Sid u) = latest_valid acc (m (Sid u)).
 Definition K2 (s : kstore) (a : amap) : Prop :=
-  forall u, a (Sid u) <> None -> exists old, s u = Some old /\ k_cls old = true.
+  forall u, a (Sid u) <> None -> exists n old, s n = Some old /\ k_uid old = u /\ k_cls old = true.
 Definition K3 (s : kstore) (a : amap) : Prop :=
-  forall u old, s u = Some old -> k_cls old = true -> acc (k_cid old) = true -> a (Sid u) = Some (k_cid old).
+  forall n old, s n = Some old -> k_cls old = true -> acc (k_cid old) = true -> a (Sid (k_uid old)) = Some (k_cid old).
 
 Lemma single_step_ok m (a : amap) u ov calls :
   a (Sid u) = latest_valid acc (m (Sid u)) ->
@@ -66,7 +100,7 @@ Proof.
     try destruct (Nat.eqb x c); simpl; intro H; try contradiction; destruct H as [<-|[]]; reflexivity.
 Qed.
 
-(** the three shapes of what the provider does on one event *)
+(** the shapes of what the provider does with one object *)
 Lemma norm_load (a : amap) kind (o : kobj) :
   kind <> KDeleted ->
   let raw := [k_call O kind o] in
@@ -115,241 +149,412 @@ Proof. unfold ks_set. rewrite Nat.eqb_refl. reflexivity. Qed.
 Lemma ks_set_other s u v w : w <> u -> ks_set s u v w = s w.
 Proof. intro H. unfold ks_set. apply Nat.eqb_neq in H. rewrite H. reflexivity. Qed.
 
-(** one watch event.  [t] is the latest valid content after the event. *)
-Lemma k8s_event_ok s m a e :
-  K0 s -> K1 a m -> K2 s a -> K3 s a -> k8s_ev_wf s e = true ->
-  let s' := fst (k8s_step O s e) in
-  let raw := snd (k8s_step O s e) in
-  let st := {| t_obs := k8s_view e; t_calls := norm_calls a raw |} in
+Lemma uid_free_spec s n u :
+  K0 s -> uid_free nn s n u = true -> forall n' x, n' <> n -> s n' = Some x -> k_uid x <> u.
+Proof.
+  intros [H0 _] Hf n' x Hn Hs. unfold uid_free in Hf. rewrite forallb_forall in Hf.
+  destruct (H0 n' x Hs) as [_ Hlt]. specialize (Hf n' (proj2 (in_seq nn 0 n') (conj (Nat.le_0_l _) Hlt))).
+  rewrite Hs in Hf. apply Nat.eqb_neq in Hn. rewrite Hn in Hf. simpl in Hf.
+  apply negb_true_iff in Hf. apply Nat.eqb_neq in Hf. exact Hf.
+Qed.
+
+(** the closing argument: what an atom that concerns name [n] / source [u] has to establish *)
+Lemma k8s_close s m a n u s' raw ov t :
+  K0 s -> K1 a m -> K2 s a -> K3 s a ->
+  (forall n' x, n' <> n -> s n' = Some x -> k_uid x <> u) ->
+  (forall old, s n = Some old -> k_uid old = u) ->
+  latest_valid acc (ov :: m (Sid u)) = t ->
+  calls_on (Sid u) (norm_calls a raw) = expected_calls (a (Sid u)) t ->
+  apply_calls a raw (Sid u) = t ->
+  (forall x, x <> Sid u -> apply_calls a raw x = a x) ->
+  (forall p, In p (norm_calls a raw) -> p_src p = Sid u) ->
+  (forall w, w <> n -> s' w = s w) ->
+  (forall old, s' n = Some old -> k_name old = n /\ n < nn /\ k_uid old = u) ->
+  (t <> None -> exists old, s' n = Some old /\ k_cls old = true) ->
+  (forall old, s' n = Some old -> k_cls old = true -> acc (k_cid old) = true -> t = Some (k_cid old)) ->
+  let st := {| t_obs := [(Sid u, ov)]; t_calls := norm_calls a raw |} in
   step_ok acc m st = true /\ K0 s' /\ K1 (apply_calls a raw) (seen_step m st) /\
   K2 s' (apply_calls a raw) /\ K3 s' (apply_calls a raw).
 Proof.
-  intros H0 H1 H2 H3 Hwf. destruct e as [ty o]. cbv zeta.
-  set (u := k_uid o). set (c := k_cid o).
-  (* a generic closing argument: given what the event does to source u *)
-  assert (Close : forall s' raw ov t,
-            (ov = SGone \/ ov = SNew c) ->
-            latest_valid acc (ov :: m (Sid u)) = t ->
-            calls_on (Sid u) (norm_calls a raw) = expected_calls (a (Sid u)) t ->
-            apply_calls a raw (Sid u) = t ->
-            (forall x, x <> Sid u -> apply_calls a raw x = a x) ->
-            (forall p, In p (norm_calls a raw) -> p_src p = Sid u) ->
-            (forall w, w <> u -> s' w = s w) ->
-            (forall old, s' u = Some old -> k_uid old = u) ->
-            (t <> None -> exists old, s' u = Some old /\ k_cls old = true) ->
-            (forall old, s' u = Some old -> k_cls old = true -> acc (k_cid old) = true -> t = Some (k_cid old)) ->
-            let st := {| t_obs := [(Sid u, ov)]; t_calls := norm_calls a raw |} in
-            step_ok acc m st = true /\ K0 s' /\ K1 (apply_calls a raw) (seen_step m st) /\
-            K2 s' (apply_calls a raw) /\ K3 s' (apply_calls a raw)).
-  { intros s' raw ov t Hov Ht Hcalls Hau Hax Hsrc Hs' Hk0 Hk2 Hk3. cbv zeta. splits.
-    - apply (single_step_ok m a u ov); [apply H1 | exact Hsrc | rewrite Ht; exact Hcalls].
-    - intros w old Hw. destruct (Nat.eq_dec w u) as [->|Hwu]; [apply Hk0; exact Hw|].
-      rewrite Hs' in Hw by exact Hwu. apply H0. exact Hw.
-    - intro w. unfold seen_step; simpl. unfold seen_add. rewrite sid_eqb_Sid.
-      destruct (Nat.eqb w u) eqn:E.
-      + apply Nat.eqb_eq in E. subst w. rewrite Hau. symmetry. exact Ht.
-      + apply Nat.eqb_neq in E. rewrite Hax; [apply H1|]. intro X. apply Sid_inj in X. contradiction.
-    - intros w Hw. destruct (Nat.eq_dec w u) as [->|Hwu].
-      + rewrite Hau in Hw. apply Hk2. exact Hw.
-      + rewrite Hax in Hw by (intro X; apply Sid_inj in X; contradiction).
-        rewrite Hs' by exact Hwu. apply H2. exact Hw.
-    - intros w old Hw Hc Ha. destruct (Nat.eq_dec w u) as [->|Hwu].
-      + rewrite Hau. apply Hk3; assumption.
-      + rewrite Hax by (intro X; apply Sid_inj in X; contradiction).
-        rewrite Hs' in Hw by exact Hwu. apply H3; assumption. }
-  assert (Hnone : s u = None -> a (Sid u) = None).
-  { intro Hs. destruct (a (Sid u)) eqn:Ea; [|reflexivity]. exfalso.
-    destruct (H2 u) as [old [Hold _]]; [congruence|]. congruence. }
-  assert (Hother : forall old, s u = Some old -> k_cls old = false -> a (Sid u) = None).
-  { intros old Hs Hc. destruct (a (Sid u)) eqn:Ea; [|reflexivity]. exfalso.
-    destruct (H2 u) as [old' [Hold' Hc']]; [congruence|]. congruence. }
-  assert (Hlv : latest_valid acc (m (Sid u)) = a (Sid u)) by (symmetry; apply H1).
-  unfold k8s_ev_wf in Hwf. cbn [fst snd] in Hwf. fold u in Hwf.
-  unfold k8s_step, k8s_view. cbn [fst snd]. fold u. fold c.
-  assert (Hexp_same : forall x, expected_calls x x = []).
-  { intros [x|]; simpl; [rewrite Nat.eqb_refl|]; reflexivity. }
-  assert (Hnil : calls_on (Sid u) (norm_calls a []) = []) by reflexivity.
-  (* Added and Modified are handled alike by the informer *)
-  assert (Upsert :
-    (match s u with
-     | Some old => if k_cls o && k_cls old
-                   then Bool.eqb (Nat.eqb (k_gen o) (k_gen old)) (Nat.eqb (k_cid o) (k_cid old)) else true
-     | None => true
-     end = true) ->
-    let s' := ks_set s u (Some o) in
-    let raw := match s u with Some old => f_update O old o | None => f_add O o end in
-    let st := {| t_obs := [(Sid u, if k_cls o then SNew c else SGone)]; t_calls := norm_calls a raw |} in
-    step_ok acc m st = true /\ K0 s' /\ K1 (apply_calls a raw) (seen_step m st) /\
-    K2 s' (apply_calls a raw) /\ K3 s' (apply_calls a raw)).
-  { intro Hw. cbv zeta.
-    assert (Hs'o : forall w, w <> u -> ks_set s u (Some o) w = s w) by (intros; apply ks_set_other; assumption).
-    assert (Hs'u : forall old, ks_set s u (Some o) u = Some old -> k_uid old = u)
-      by (intros old E; rewrite ks_set_same in E; injection E as <-; reflexivity).
+  intros [H0 H0u] H1 H2 H3 Hfree Hstored Ht Hcalls Hau Hax Hsrc Hs' Hk0 Hk2 Hk3. cbv zeta. splits.
+  - apply (single_step_ok m a u ov); [apply H1 | exact Hsrc | rewrite Ht; exact Hcalls].
+  - split.
+    + intros w old Hw. destruct (Nat.eq_dec w n) as [->|Hwn]; [destruct (Hk0 old Hw); tauto|].
+      rewrite Hs' in Hw by exact Hwn. apply H0. exact Hw.
+    + intros w w' x y Hx Hy Hu.
+      destruct (Nat.eq_dec w n) as [->|Hwn]; destruct (Nat.eq_dec w' n) as [->|Hwn']; try reflexivity.
+      * rewrite Hs' in Hy by exact Hwn'. destruct (Hk0 x Hx) as [_ [_ Ex]]. exfalso.
+        apply (Hfree w' y Hwn' Hy). congruence.
+      * rewrite Hs' in Hx by exact Hwn. destruct (Hk0 y Hy) as [_ [_ Ey]]. exfalso.
+        apply (Hfree w x Hwn Hx). congruence.
+      * rewrite Hs' in Hx by exact Hwn. rewrite Hs' in Hy by exact Hwn'. eapply H0u; eauto.
+  - intro w. unfold seen_step; simpl. unfold seen_add. rewrite sid_eqb_Sid.
+    destruct (Nat.eqb w u) eqn:E.
+    + apply Nat.eqb_eq in E. subst w. rewrite Hau. symmetry. exact Ht.
+    + apply Nat.eqb_neq in E. rewrite Hax; [apply H1|]. intro X. apply Sid_inj in X. contradiction.
+  - intros w Hw. destruct (Nat.eq_dec w u) as [->|Hwu].
+    + rewrite Hau in Hw. destruct (Hk2 Hw) as [old [E C]]. exists n, old. destruct (Hk0 old E) as [_ [_ Eu]]. auto.
+    + rewrite Hax in Hw by (intro X; apply Sid_inj in X; contradiction).
+      destruct (H2 w Hw) as [n' [old [E [Eu C]]]]. exists n', old. splits; try assumption.
+      rewrite Hs'; [exact E|]. intro X. subst n'. apply Hwu. rewrite <- Eu. apply Hstored. exact E.
+  - intros w old Hw Hc Ha. destruct (Nat.eq_dec w n) as [->|Hwn].
+    + destruct (Hk0 old Hw) as [_ [_ Eu]]. rewrite Eu, Hau. apply Hk3; assumption.
+    + rewrite Hs' in Hw by exact Hwn. rewrite Hax; [apply (H3 w); assumption|].
+      intro X. apply Sid_inj in X. apply (Hfree w old Hwn Hw). exact X.
+Qed.
+
+Lemma expected_same a : expected_calls a a = [].
+Proof. destruct a; simpl; [rewrite Nat.eqb_refl|]; reflexivity. Qed.
+
+(** one object handed to the handlers, outside the guards *)
+Lemma k8s_atom_ok s m a at_ :
+  K0 s -> K1 a m -> K2 s a -> K3 s a ->
+  k8s_atom_wf nn s at_ = true ->
+  f7 = true \/ k8s_atom_guard_F7 s at_ = false ->
+  k8s_atom_guard_F8 s at_ = false ->
+  exists raw, snd (k8s_atom O f7 f8 s at_) = Some raw /\
+  fst (k8s_atom O f7 f8 s at_) = ks_atom s at_ /\
+  let s' := ks_atom s at_ in
+  let st := {| t_obs := k8s_atom_view s at_; t_calls := norm_calls a raw |} in
+  step_ok acc m st = true /\ K0 s' /\ K1 (apply_calls a raw) (seen_step m st) /\
+  K2 s' (apply_calls a raw) /\ K3 s' (apply_calls a raw).
+Proof.
+  intros H0 H1 H2 H3 Hwf Hg7 Hg8.
+  assert (Hnil : forall u, calls_on (Sid u) (norm_calls a []) = []) by reflexivity.
+  assert (Hnone : forall u, (forall n old, s n = Some old -> k_uid old <> u) -> a (Sid u) = None).
+  { intros u Hu. destruct (a (Sid u)) eqn:Ea; [|reflexivity]. exfalso.
+    destruct (H2 u) as [n [old [E [Eu _]]]]; [congruence|]. apply (Hu n old E Eu). }
+  assert (Hother : forall n old, s n = Some old -> k_cls old = false -> a (Sid (k_uid old)) = None).
+  { intros n old Hs Hc. destruct (a (Sid (k_uid old))) eqn:Ea; [|reflexivity]. exfalso.
+    destruct (H2 (k_uid old)) as [n' [old' [E' [Eu' C']]]]; [congruence|].
+    destruct H0 as [_ H0u]. assert (n' = n) by (eapply H0u; eauto). subst n'. congruence. }
+  (* a delete of a stored object [old] of name [n], however it is delivered *)
+  assert (Del : forall n old (dobj : kobj),
+            s n = Some old -> k_uid dobj = k_uid old -> k_cls dobj = k_cls old ->
+            (forall n' x, n' <> n -> s n' = Some x -> k_uid x <> k_uid old) ->
+            let raw := f_delete O dobj in
+            let st := {| t_obs := [(Sid (k_uid old), SGone)]; t_calls := norm_calls a raw |} in
+            step_ok acc m st = true /\ K0 (ks_set s n None) /\ K1 (apply_calls a raw) (seen_step m st) /\
+            K2 (ks_set s n None) (apply_calls a raw) /\ K3 (ks_set s n None) (apply_calls a raw)).
+  { intros n old dobj Hs Hu Hc Hfree. cbv zeta. unfold f_delete.
+    assert (Hstored : forall x, s n = Some x -> k_uid x = k_uid old) by (intros x E; congruence).
+    assert (Hs'o : forall w, w <> n -> ks_set s n None w = s w) by (intros; apply ks_set_other; assumption).
+    assert (Hs'u : forall x, ks_set s n None n = Some x -> k_name x = n /\ n < nn /\ k_uid x = k_uid old)
+      by (intros x E; rewrite ks_set_same in E; discriminate).
+    assert (Hk2 : @None cid <> None -> exists x, ks_set s n None n = Some x /\ k_cls x = true) by (intro X; contradiction).
+    assert (Hk3 : forall x, ks_set s n None n = Some x -> k_cls x = true -> acc (k_cid x) = true -> @None cid = Some (k_cid x))
+      by (intros x E; rewrite ks_set_same in E; discriminate).
+    destruct (k_cls dobj) eqn:Ecd.
+    - unfold k_delete. destruct (norm_delete a dobj) as [N1 [N2 [N3 N4]]]. rewrite Hu in N1, N2, N3, N4.
+      apply (k8s_close s m a n (k_uid old) (ks_set s n None) [k_call O KDeleted dobj] SGone None); try assumption. reflexivity.
+    - assert (Ha : a (Sid (k_uid old)) = None) by (apply (Hother n old Hs); congruence).
+      apply (k8s_close s m a n (k_uid old) (ks_set s n None) [] SGone None); try assumption; try reflexivity.
+      + rewrite Hnil, Ha. reflexivity.
+      + intros p []. }
+  destruct at_ as [o|o|n].
+  - (* upsert *)
+    set (n := k_name o). set (u := k_uid o). set (c := k_cid o).
+    simpl in Hwf. fold n u in Hwf. apply andb_true_iff in Hwf as [Hwf Hwg]. apply andb_true_iff in Hwf as [Hlt Hfree].
+    apply Nat.ltb_lt in Hlt. pose proof (uid_free_spec s n u H0 Hfree) as Hfr.
+    simpl in Hg8. fold n u in Hg8.
+    assert (Hstored : forall old, s n = Some old -> k_uid old = u).
+    { intros old E. rewrite E in Hg8. apply negb_false_iff in Hg8. apply Nat.eqb_eq in Hg8. exact Hg8. }
+    assert (Hlv : latest_valid acc (m (Sid u)) = a (Sid u)) by (symmetry; apply H1).
+    assert (Hs'o : forall w, w <> n -> ks_set s n (Some o) w = s w) by (intros; apply ks_set_other; assumption).
+    assert (Hs'u : forall old, ks_set s n (Some o) n = Some old -> k_name old = n /\ n < nn /\ k_uid old = u)
+      by (intros old E; rewrite ks_set_same in E; injection E as <-; auto).
+    assert (Hview : k8s_atom_view s (AUpsert o) = [(Sid u, kobj_obs o)]).
+    { simpl. fold n u. destruct (s n) as [old|] eqn:E; [|reflexivity]. rewrite (Hstored old eq_refl), Nat.eqb_refl. reflexivity. }
+    assert (Hraw : snd (k8s_atom O f7 f8 s (AUpsert o)) =
+                   Some match s n with Some old => f_update O f8 old o | None => f_add O o end) by reflexivity.
+    eexists. split; [exact Hraw|]. split; [reflexivity|]. cbv zeta. rewrite Hview. simpl ks_atom. fold n.
+    unfold kobj_obs.
     destruct (k_cls o) eqn:Eco.
-    - (* of the provider's class *)
-      set (t := if acc c then Some c else a (Sid u)).
+    + set (t := if acc c then Some c else a (Sid u)).
       assert (Ht : latest_valid acc (SNew c :: m (Sid u)) = t) by (simpl; rewrite Hlv; reflexivity).
-      assert (Hk2 : t <> None -> exists old, ks_set s u (Some o) u = Some old /\ k_cls old = true)
+      assert (Hk2 : t <> None -> exists old, ks_set s n (Some o) n = Some old /\ k_cls old = true)
         by (intros _; exists o; rewrite ks_set_same; auto).
-      assert (Hk3 : forall old, ks_set s u (Some o) u = Some old -> k_cls old = true -> acc (k_cid old) = true ->
+      assert (Hk3 : forall old, ks_set s n (Some o) n = Some old -> k_cls old = true -> acc (k_cid old) = true ->
                     t = Some (k_cid old)).
       { intros old E _ Ha. rewrite ks_set_same in E. injection E as <-. unfold t. fold c in Ha. rewrite Ha. reflexivity. }
       assert (Hload : forall kind, kind <> KDeleted ->
                 let raw := [k_call O kind o] in
-                step_ok acc m {| t_obs := [(Sid u, SNew c)]; t_calls := norm_calls a raw |} = true /\
-                K0 (ks_set s u (Some o)) /\
-                K1 (apply_calls a raw) (seen_step m {| t_obs := [(Sid u, SNew c)]; t_calls := norm_calls a raw |}) /\
-                K2 (ks_set s u (Some o)) (apply_calls a raw) /\ K3 (ks_set s u (Some o)) (apply_calls a raw)).
+                let st := {| t_obs := [(Sid u, SNew c)]; t_calls := norm_calls a raw |} in
+                step_ok acc m st = true /\ K0 (ks_set s n (Some o)) /\ K1 (apply_calls a raw) (seen_step m st) /\
+                K2 (ks_set s n (Some o)) (apply_calls a raw) /\ K3 (ks_set s n (Some o)) (apply_calls a raw)).
       { intros kind Hkind. destruct (norm_load a kind o Hkind) as [N1 [N2 [N3 N4]]]. fold u in N1, N2, N3, N4. fold c in N1, N2.
-        apply (Close (ks_set s u (Some o)) [k_call O kind o] (SNew c) t); try assumption; try (right; reflexivity).
-        rewrite N1. unfold t. destruct (acc c); [reflexivity | symmetry; apply Hexp_same]. }
-      destruct (s u) as [old|] eqn:Esu.
-      + unfold f_update. rewrite Eco. destruct (k_cls old) eqn:Ecold.
-        * unfold k_update. simpl in Hw. apply Bool.eqb_prop in Hw.
-          destruct (Nat.eqb (k_gen old) (k_gen o)) eqn:Eg.
-          -- (* same generation: nothing is done, and nothing had to be *)
-             rewrite Nat.eqb_sym in Eg. rewrite Eg in Hw. symmetry in Hw. apply Nat.eqb_eq in Hw. fold c in Hw.
-             assert (Hin : t = a (Sid u)).
-             { unfold t. destruct (acc c) eqn:Ea; [|reflexivity]. symmetry. rewrite Hw.
-               apply (H3 u old Esu Ecold). rewrite <- Hw. exact Ea. }
-             apply (Close (ks_set s u (Some o)) [] (SNew c) t); try assumption; try (right; reflexivity).
-             ++ rewrite Hnil, Hin. symmetry. apply Hexp_same.
-             ++ rewrite Hin. reflexivity.
-             ++ intros; reflexivity.
-             ++ intros p [].
-          -- apply (Hload KUpdated). discriminate.
-        * apply (Hload KCreated). discriminate.
-      + unfold f_add. rewrite Eco. apply (Hload KCreated). discriminate.
-    - (* of another class: not a source of this instance *)
-      assert (Ht : latest_valid acc (SGone :: m (Sid u)) = None) by reflexivity.
-      assert (Hk2 : @None cid <> None -> exists old, ks_set s u (Some o) u = Some old /\ k_cls old = true)
+        apply (k8s_close s m a n u (ks_set s n (Some o)) [k_call O kind o] (SNew c) t); try assumption.
+        rewrite N1. unfold t. destruct (acc c); [reflexivity | symmetry; apply expected_same]. }
+      destruct (s n) as [old|] eqn:Esu.
+      * unfold f_update. rewrite Eco. destruct (k_cls old) eqn:Ecold.
+        -- unfold k_update. rewrite (Hstored old eq_refl). fold u. rewrite Nat.eqb_refl, andb_false_r.
+           rewrite (Hstored old eq_refl) in Hwg. fold u in Hwg. rewrite Nat.eqb_refl in Hwg.
+           simpl in Hwg. apply Bool.eqb_prop in Hwg.
+           destruct (Nat.eqb (k_gen old) (k_gen o)) eqn:Eg.
+           ++ rewrite Nat.eqb_sym in Eg. rewrite Eg in Hwg. symmetry in Hwg. apply Nat.eqb_eq in Hwg. fold c in Hwg.
+              assert (Hin : t = a (Sid u)).
+              { unfold t. destruct (acc c) eqn:Ea; [|reflexivity]. symmetry. rewrite Hwg.
+                rewrite <- (Hstored old eq_refl). apply (H3 n old Esu Ecold). rewrite <- Hwg. exact Ea. }
+              apply (k8s_close s m a n u (ks_set s n (Some o)) [] (SNew c) t); try assumption.
+              ** rewrite Esu. exact Hstored.
+              ** rewrite Hnil, Hin. symmetry. apply expected_same.
+              ** rewrite Hin. reflexivity.
+              ** intros; reflexivity.
+              ** intros p [].
+           ++ rewrite <- Esu in Hstored. apply (Hload KUpdated). discriminate.
+        -- rewrite <- Esu in Hstored. apply (Hload KCreated). discriminate.
+      * unfold f_add. rewrite Eco. rewrite <- Esu in Hstored. apply (Hload KCreated). discriminate.
+    + assert (Ht : latest_valid acc (SGone :: m (Sid u)) = None) by reflexivity.
+      assert (Hk2 : @None cid <> None -> exists old, ks_set s n (Some o) n = Some old /\ k_cls old = true)
         by (intro X; contradiction).
-      assert (Hk3 : forall old, ks_set s u (Some o) u = Some old -> k_cls old = true -> acc (k_cid old) = true ->
+      assert (Hk3 : forall old, ks_set s n (Some o) n = Some old -> k_cls old = true -> acc (k_cid old) = true ->
                     @None cid = Some (k_cid old)).
       { intros old E Hc _. rewrite ks_set_same in E. injection E as <-. congruence. }
       assert (Hidle : a (Sid u) = None ->
-                step_ok acc m {| t_obs := [(Sid u, SGone)]; t_calls := norm_calls a [] |} = true /\
-                K0 (ks_set s u (Some o)) /\
-                K1 (apply_calls a []) (seen_step m {| t_obs := [(Sid u, SGone)]; t_calls := norm_calls a [] |}) /\
-                K2 (ks_set s u (Some o)) (apply_calls a []) /\ K3 (ks_set s u (Some o)) (apply_calls a [])).
-      { intro Ha. apply (Close (ks_set s u (Some o)) [] SGone None); try assumption; try (left; reflexivity).
+                let st := {| t_obs := [(Sid u, SGone)]; t_calls := norm_calls a [] |} in
+                step_ok acc m st = true /\ K0 (ks_set s n (Some o)) /\ K1 (apply_calls a []) (seen_step m st) /\
+                K2 (ks_set s n (Some o)) (apply_calls a []) /\ K3 (ks_set s n (Some o)) (apply_calls a [])).
+      { intro Ha. apply (k8s_close s m a n u (ks_set s n (Some o)) [] SGone None); try assumption.
         - rewrite Hnil, Ha. reflexivity.
         - intros; reflexivity.
         - intros p []. }
-      destruct (s u) as [old|] eqn:Esu.
-      + unfold f_update. rewrite Eco. destruct (k_cls old) eqn:Ecold.
-        * unfold k_delete. destruct (norm_delete a old) as [N1 [N2 [N3 N4]]].
-          rewrite (H0 u old Esu) in N1, N2, N3, N4.
-          apply (Close (ks_set s u (Some o)) [k_call O KDeleted old] SGone None); try assumption. left; reflexivity.
-        * apply Hidle. apply (Hother old); [reflexivity | exact Ecold].
-      + unfold f_add. rewrite Eco. apply Hidle. apply Hnone. reflexivity. }
-  destruct ty.
-  - (* Added *)
-    apply Upsert. destruct (s u); exact Hwf.
-  - (* Modified *)
-    apply Upsert. destruct (s u); exact Hwf.
-  - (* Deleted *)
-    assert (Ht : latest_valid acc (SGone :: m (Sid u)) = None) by reflexivity.
-    destruct (s u) as [old|] eqn:Esu.
-    + cbn [fst snd].
-      assert (Hs'o : forall w, w <> u -> ks_set s u None w = s w) by (intros; apply ks_set_other; assumption).
-      assert (Hs'u : forall old, ks_set s u None u = Some old -> k_uid old = u)
-        by (intros x E; rewrite ks_set_same in E; discriminate).
-      assert (Hk2 : @None cid <> None -> exists old, ks_set s u None u = Some old /\ k_cls old = true)
-        by (intro X; contradiction).
-      assert (Hk3 : forall old, ks_set s u None u = Some old -> k_cls old = true -> acc (k_cid old) = true ->
-                    @None cid = Some (k_cid old)) by (intros x E; rewrite ks_set_same in E; discriminate).
-      apply Bool.eqb_prop in Hwf. unfold f_delete. destruct (k_cls o) eqn:Eco.
-      * unfold k_delete. destruct (norm_delete a o) as [N1 [N2 [N3 N4]]]. fold u in N1, N2, N3, N4.
-        apply (Close (ks_set s u None) [k_call O KDeleted o] SGone None); try assumption. left; reflexivity.
-      * apply (Close (ks_set s u None) [] SGone None); try assumption; try (left; reflexivity).
-        -- rewrite Hnil, (Hother old); [reflexivity | reflexivity | congruence].
-        -- apply (Hother old); [reflexivity | congruence].
-        -- intros; reflexivity.
-        -- intros p [].
-    + cbn [fst snd].
-      apply (Close s [] SGone None); try assumption; try (left; reflexivity).
-      * rewrite Hnil, (Hnone eq_refl). reflexivity.
-      * apply Hnone. reflexivity.
-      * intros; reflexivity.
+      destruct (s n) as [old|] eqn:Esu.
+      * unfold f_update. rewrite Eco. destruct (k_cls old) eqn:Ecold.
+        -- unfold k_delete. destruct (norm_delete a old) as [N1 [N2 [N3 N4]]].
+           rewrite (Hstored old eq_refl) in N1, N2, N3, N4. rewrite <- Esu in Hstored.
+           apply (k8s_close s m a n u (ks_set s n (Some o)) [k_call O KDeleted old] SGone None); assumption.
+        -- pose proof (Hother n old Esu Ecold) as Ha. rewrite (Hstored old eq_refl) in Ha.
+           rewrite <- Esu in Hstored. apply Hidle. exact Ha.
+      * unfold f_add. rewrite Eco. rewrite <- Esu in Hstored. apply Hidle. apply Hnone.
+        intros n' x E Eu. destruct (Nat.eq_dec n' n) as [->|Hn]; [congruence|]. apply (Hfr n' x Hn E Eu).
+  - (* Deleted event *)
+    set (n := k_name o). set (u := k_uid o).
+    simpl in Hwf. fold n u in Hwf. apply andb_true_iff in Hwf as [Hfree Hwg].
+    pose proof (uid_free_spec s n u H0 Hfree) as Hfr.
+    simpl in Hg8. fold n u in Hg8.
+    simpl k8s_atom. simpl k8s_atom_view. simpl ks_atom. fold n u.
+    destruct (s n) as [old|] eqn:Esu.
+    + apply negb_false_iff in Hg8. apply Nat.eqb_eq in Hg8. apply Bool.eqb_prop in Hwg.
+      eexists. split; [reflexivity|]. split; [reflexivity|]. cbv zeta. rewrite <- Hg8.
+      apply (Del n old o Esu); [symmetry; exact Hg8 | exact Hwg | rewrite Hg8; exact Hfr].
+    + eexists. split; [reflexivity|]. split; [reflexivity|]. cbv zeta.
+      assert (Ha : a (Sid u) = None).
+      { apply Hnone. intros n' x E Eu. destruct (Nat.eq_dec n' n) as [->|Hn]; [congruence|]. apply (Hfr n' x Hn E Eu). }
+      apply (k8s_close s m a n u s [] SGone None); try assumption; try reflexivity.
+      * intros old E. congruence.
+      * rewrite Hnil, Ha. reflexivity.
       * intros p [].
-      * intros; reflexivity.
-      * intros x E. rewrite Esu in E. discriminate.
+      * intros old E. congruence.
       * intro X; contradiction.
-      * intros x E. rewrite Esu in E. discriminate.
-Qed.
-
-
-Definition k8s_raw_trace_from (s : kstore) (h : list k8s_event) : list tstep :=
-  mk_trace (k8s_views h) (snd (k8s_run_from O s h)).
-
-Lemma k8s_raw_trace_from_cons s e r :
-  k8s_raw_trace_from s (e :: r) =
-  {| t_obs := k8s_view e; t_calls := snd (k8s_step O s e) |} :: k8s_raw_trace_from (fst (k8s_step O s e)) r.
-Proof. reflexivity. Qed.
-
-Lemma k8s_trace_ok_from : forall h s m a,
-  K0 s -> K1 a m -> K2 s a -> K3 s a -> k8s_wf_from s h = true ->
-  trace_ok_from acc m (norm_trace_from a (k8s_raw_trace_from s h)) = true /\
-  K1 (fold_left (fun a st => apply_calls a (t_calls st)) (k8s_raw_trace_from s h) a)
-     (fold_left seen_step (k8s_raw_trace_from s h) m).
-Proof.
-  induction h as [|e r IH]; intros s m a H0 H1 H2 H3 Hwf.
-  - split; [reflexivity | exact H1].
-  - rewrite k8s_raw_trace_from_cons. simpl norm_trace_from. simpl trace_ok_from. simpl fold_left.
-    simpl in Hwf. apply andb_true_iff in Hwf as [Hw1 Hw2].
-    destruct (k8s_event_ok s m a e H0 H1 H2 H3 Hw1) as [E1 [E0 [E1' [E2 E3]]]]. cbv zeta in E1, E0, E1', E2, E3.
-    rewrite E1. simpl.
-    assert (Hst : ks_step s e = fst (k8s_step O s e)).
-    { destruct e as [[| |] o]; unfold ks_step, k8s_step; cbn [fst snd]; try reflexivity. destruct (s (k_uid o)); reflexivity. }
-    rewrite Hst in Hw2.
-    (* the seen map of a step does not depend on its calls *)
-    change (seen_step m {| t_obs := k8s_view e; t_calls := snd (k8s_step O s e) |})
-      with (seen_step m {| t_obs := k8s_view e; t_calls := norm_calls a (snd (k8s_step O s e)) |}).
-    apply IH; assumption.
-Qed.
-
-Definition k8s_raw_trace (h : list k8s_event) : list tstep := k8s_raw_trace_from ks_empty h.
-
-(** T_main (Kubernetes): every well-formed watch history yields a right trace, read modulo idempotent calls *)
-Theorem k8s_trace_ok h :
-  k8s_wf h = true -> trace_ok acc (norm_trace (k8s_raw_trace h)) = true.
-Proof.
-  intro Hwf. apply (k8s_trace_ok_from h ks_empty seen_empty a_empty); try assumption.
-  - intros u old E. discriminate.
-  - intro u. reflexivity.
-  - intros u E. exfalso. apply E. reflexivity.
-  - intros u old E. discriminate.
-Qed.
-
-(** and what the provider's actual calls leave loaded is the latest valid content seen *)
-Theorem k8s_converges h u :
-  k8s_wf h = true ->
-  active_of (k8s_raw_trace h) (Sid u) = latest_valid acc (seen_of (k8s_raw_trace h) (Sid u)).
-Proof.
-  intro Hwf. apply (k8s_trace_ok_from h ks_empty seen_empty a_empty); try assumption.
-  - intros w old E. discriminate.
-  - intro w. reflexivity.
-  - intros w E. exfalso. apply E. reflexivity.
-  - intros w old E. discriminate.
+      * intros old E. congruence.
+  - (* tombstone *)
+    simpl k8s_atom. simpl k8s_atom_view. simpl ks_atom. simpl in Hg7.
+    destruct (s n) as [old|] eqn:Esu.
+    + destruct Hg7 as [->|Hg7]; [|discriminate].
+      eexists. split; [reflexivity|]. split; [reflexivity|]. cbv zeta.
+      apply (Del n old old Esu); try reflexivity.
+      intros n' x Hn E Eu. destruct H0 as [_ H0u]. apply Hn. eapply H0u; eauto.
+    + eexists. split; [destruct f7; reflexivity|]. split; [reflexivity|]. cbv zeta.
+      splits; try assumption; try reflexivity.
 Qed.
 
 End K8s.
 
+(** ** Histories *)
+
+Definition calls_of (x : katom * option (list pcall)) : list pcall :=
+  match snd x with Some c => c | None => [] end.
+
+(** the trace of a run: one step per object handed to the handlers — what the
+    specification says the step looked at, and the calls made *)
+Definition k8s_raw_trace (O : oracle) (f7 f8 : bool) (nn : nat) (h : list k8s_event) : list tstep :=
+  mk_trace (k8s_atom_views ks_empty (k8s_atoms_from nn ks_empty h)) (map calls_of (snd (k8s_run O f7 f8 nn h))).
+
+Section K8sRun.
+Variable O : oracle.
+Hypothesis Hdel : forall s, deletable O s = true.
+Variable f7 f8 : bool.
+Variable nn : nat.
+Let acc := accepts O.
+
+Definition KI (s : kstore) (m : seen_map) (a : amap) : Prop :=
+  K0 nn s /\ K1 O a m /\ K2 s a /\ K3 O s a.
+
+Definition tr_seen (tr : list tstep) (m : seen_map) : seen_map := fold_left seen_step tr m.
+Definition tr_active (tr : list tstep) (a : amap) : amap := fold_left (fun a st => apply_calls a (t_calls st)) tr a.
+
+Lemma k8s_atom_views_app s l1 l2 :
+  k8s_atom_views s (l1 ++ l2) = k8s_atom_views s l1 ++ k8s_atom_views (fold_left ks_atom l1 s) l2.
+Proof. revert s. induction l1 as [|a r IH]; intro s; simpl; [reflexivity|]. rewrite IH. reflexivity. Qed.
+
+(** the atoms of one event *)
+Lemma k8s_atoms_ok : forall atoms s m a,
+  KI s m a ->
+  fst (k8s_atoms_pred (k8s_atom_wf nn) s atoms) = true ->
+  f7 = true \/ fst (k8s_atoms_pred (fun s a => negb (k8s_atom_guard_F7 s a)) s atoms) = true ->
+  fst (k8s_atoms_pred (fun s a => negb (k8s_atom_guard_F8 s a)) s atoms) = true ->
+  let r := k8s_atoms_run O f7 f8 s atoms in
+  panicked (snd r) = false /\ fst r = fold_left ks_atom atoms s /\
+  exists m' a', KI (fold_left ks_atom atoms s) m' a' /\
+    forall restv restc,
+      let tr := mk_trace (k8s_atom_views s atoms ++ restv) (map calls_of (snd r) ++ restc) in
+      let tr' := mk_trace restv restc in
+      trace_ok_from acc m (norm_trace_from a tr) = trace_ok_from acc m' (norm_trace_from a' tr') /\
+      tr_seen tr m = tr_seen tr' m' /\ tr_active tr a = tr_active tr' a'.
+Proof.
+  induction atoms as [|at_ r IH]; intros s m a HI Hwf Hg7 Hg8.
+  - simpl. splits; try reflexivity. exists m, a. split; [exact HI|]. intros; splits; reflexivity.
+  - simpl in Hwf, Hg8. apply andb_true_iff in Hwf as [Hw1 Hw2]. apply andb_true_iff in Hg8 as [Hg8a Hg8b].
+    apply negb_true_iff in Hg8a.
+    assert (Hg7a : f7 = true \/ k8s_atom_guard_F7 s at_ = false).
+    { destruct Hg7 as [H|H]; [left; exact H | right]. simpl in H. apply andb_true_iff in H as [H _]. apply negb_true_iff in H. exact H. }
+    assert (Hg7b : f7 = true \/ fst (k8s_atoms_pred (fun s a => negb (k8s_atom_guard_F7 s a)) (ks_atom s at_) r) = true).
+    { destruct Hg7 as [H|H]; [left; exact H | right]. simpl in H. apply andb_true_iff in H as [_ H]. exact H. }
+    destruct HI as [H0 [H1 [H2 H3]]].
+    destruct (k8s_atom_ok O Hdel f7 f8 nn s m a at_ H0 H1 H2 H3 Hw1 Hg7a Hg8a) as [raw [Eraw [Est [S1 [S0 [S1' [S2 S3]]]]]]].
+    cbv zeta in S1, S0, S1', S2, S3.
+    simpl k8s_atoms_run. rewrite Eraw, Est.
+    set (st := {| t_obs := k8s_atom_view s at_; t_calls := norm_calls a raw |}) in *.
+    specialize (IH (ks_atom s at_) (seen_step m st) (apply_calls a raw) (conj S0 (conj S1' (conj S2 S3))) Hw2 Hg7b Hg8b).
+    cbv zeta in IH. destruct IH as [I1 [I2 [m' [a' [I3 I4]]]]].
+    cbv zeta. simpl snd. simpl fst. splits.
+    + simpl. exact I1.
+    + simpl. exact I2.
+    + exists m', a'. split; [exact I3|]. intros restv restc. cbv zeta.
+      simpl k8s_atom_views. simpl map. unfold calls_of at 1. simpl snd.
+      simpl app. simpl mk_trace. simpl norm_trace_from. simpl trace_ok_from.
+      unfold acc. unfold st in S1. rewrite S1. simpl andb. fold acc.
+      destruct (I4 restv restc) as [J1 [J2 J3]]. splits.
+      * exact J1.
+      * unfold tr_seen. simpl fold_left. exact J2.
+      * unfold tr_active. simpl fold_left. exact J3.
+Qed.
+
+Lemma k8s_run_ok : forall h s m a,
+  KI s m a ->
+  k8s_all_from (k8s_atom_wf nn) nn s h = true ->
+  f7 = true \/ k8s_all_from (fun s a => negb (k8s_atom_guard_F7 s a)) nn s h = true ->
+  k8s_all_from (fun s a => negb (k8s_atom_guard_F8 s a)) nn s h = true ->
+  let r := k8s_run_from O f7 f8 nn s h in
+  let tr := mk_trace (k8s_atom_views s (k8s_atoms_from nn s h)) (map calls_of (snd r)) in
+  panicked (snd r) = false /\
+  trace_ok_from acc m (norm_trace_from a tr) = true /\
+  K1 O (tr_active tr a) (tr_seen tr m).
+Proof.
+  induction h as [|e r IH]; intros s m a HI Hwf Hg7 Hg8.
+  - simpl. splits; try reflexivity. apply HI.
+  - simpl in Hwf, Hg8. apply andb_true_iff in Hwf as [Hw1 Hw2]. apply andb_true_iff in Hg8 as [Hg8a Hg8b].
+    assert (Hsnd : forall p, snd (k8s_atoms_pred p s (atoms_of nn s e)) = fold_left ks_atom (atoms_of nn s e) s).
+    { intro p. generalize (atoms_of nn s e) as l. generalize s as s0. intros s0 l. revert s0. induction l as [|x l IHl]; intro s0; [reflexivity|]. simpl. apply IHl. }
+    assert (Hg7a : f7 = true \/ fst (k8s_atoms_pred (fun s a => negb (k8s_atom_guard_F7 s a)) s (atoms_of nn s e)) = true).
+    { destruct Hg7 as [H|H]; [left; exact H | right]. simpl in H. apply andb_true_iff in H as [H _]. exact H. }
+    destruct (k8s_atoms_ok (atoms_of nn s e) s m a HI Hw1 Hg7a Hg8a) as [A1 [A2 [m' [a' [A3 A4]]]]].
+    cbv zeta in A1, A2, A4.
+    rewrite Hsnd in Hw2, Hg8b.
+    assert (Hg7b : f7 = true \/ k8s_all_from (fun s a => negb (k8s_atom_guard_F7 s a)) nn
+                                   (fold_left ks_atom (atoms_of nn s e) s) r = true).
+    { destruct Hg7 as [H|H]; [left; exact H | right]. simpl in H. apply andb_true_iff in H as [_ H]. rewrite Hsnd in H. exact H. }
+    specialize (IH _ m' a' A3 Hw2 Hg7b Hg8b). cbv zeta in IH. destruct IH as [I1 [I2 I3]].
+    cbv zeta. simpl k8s_run_from. rewrite A1. simpl k8s_atoms_from. rewrite k8s_atom_views_app.
+    simpl snd. rewrite map_app. rewrite A2.
+    destruct (A4 (k8s_atom_views (fold_left ks_atom (atoms_of nn s e) s)
+                    (k8s_atoms_from nn (fold_left ks_atom (atoms_of nn s e) s) r))
+                 (map calls_of (snd (k8s_run_from O f7 f8 nn (fold_left ks_atom (atoms_of nn s e) s) r)))) as [J1 [J2 J3]].
+    splits.
+    + unfold panicked. rewrite existsb_app. fold (panicked (snd (k8s_atoms_run O f7 f8 s (atoms_of nn s e)))).
+      rewrite A1. exact I1.
+    + rewrite J1. exact I2.
+    + rewrite J2, J3. exact I3.
+Qed.
+
+(** T_main (Kubernetes): every well-formed history of watch events and relists,
+    outside the guards of the open findings, makes no handler panic and yields a
+    right trace, read modulo idempotent calls *)
+Theorem k8s_trace_ok h :
+  k8s_wf nn h = true ->
+  f7 = true \/ k8s_guard_F7 nn h = false ->
+  k8s_guard_F8 nn h = false ->
+  panicked (snd (k8s_run O f7 f8 nn h)) = false /\
+  trace_ok acc (norm_trace (k8s_raw_trace O f7 f8 nn h)) = true.
+Proof.
+  intros Hwf H7 H8.
+  assert (KI ks_empty seen_empty a_empty) as HI.
+  { unfold KI, K0, K1, K2, K3. splits; try (intros; discriminate); try reflexivity.
+    intros u E. exfalso. apply E. reflexivity. }
+  assert (H7' : f7 = true \/ k8s_all_from (fun s a => negb (k8s_atom_guard_F7 s a)) nn ks_empty h = true).
+  { destruct H7 as [H|H]; [left; exact H | right]. unfold k8s_guard_F7 in H. apply negb_false_iff in H. exact H. }
+  unfold k8s_guard_F8 in H8. apply negb_false_iff in H8.
+  destruct (k8s_run_ok h ks_empty seen_empty a_empty HI Hwf H7' H8) as [R1 [R2 _]].
+  split; [exact R1 | exact R2].
+Qed.
+
+(** and what the provider's actual calls leave loaded is the latest valid content seen *)
+Theorem k8s_converges h u :
+  k8s_wf nn h = true ->
+  f7 = true \/ k8s_guard_F7 nn h = false ->
+  k8s_guard_F8 nn h = false ->
+  active_of (k8s_raw_trace O f7 f8 nn h) (Sid u)
+  = latest_valid acc (seen_of (k8s_raw_trace O f7 f8 nn h) (Sid u)).
+Proof.
+  intros Hwf H7 H8.
+  assert (KI ks_empty seen_empty a_empty) as HI.
+  { unfold KI, K0, K1, K2, K3. splits; try (intros; discriminate); try reflexivity.
+    intros w E. exfalso. apply E. reflexivity. }
+  assert (H7' : f7 = true \/ k8s_all_from (fun s a => negb (k8s_atom_guard_F7 s a)) nn ks_empty h = true).
+  { destruct H7 as [H|H]; [left; exact H | right]. unfold k8s_guard_F7 in H. apply negb_false_iff in H. exact H. }
+  unfold k8s_guard_F8 in H8. apply negb_false_iff in H8.
+  destruct (k8s_run_ok h ks_empty seen_empty a_empty HI Hwf H7' H8) as [_ [_ R3]].
+  apply R3.
+Qed.
+
+End K8sRun.
+
+(** ** The findings' witnesses *)
+
+Definition mko n u cls gen c := {| k_name := n; k_uid := u; k_cls := cls; k_gen := gen; k_cid := c |}.
+
+(** C18-F7: the RuleSet is deleted while the watch is broken; the new list does not contain it *)
+Definition kh_F7 : list k8s_event := [KWatch WAdded (mko 0 0 true 1 1); KRelist []].
+
+Theorem k8s_F7_refuted :
+  exists h, k8s_wf 1 h = true /\ k8s_guard_F7 1 h = true /\ k8s_guard_F8 1 h = false /\
+            panicked (snd (k8s_run O_all false false 1 h)) = true /\
+            panicked (snd (k8s_run O_all true false 1 h)) = false /\
+            trace_ok (accepts O_all) (norm_trace (k8s_raw_trace O_all true false 1 h)) = true /\
+            active_of (k8s_raw_trace O_all false false 1 h) (Sid 0) = Some 1 /\
+            active_of (k8s_raw_trace O_all true false 1 h) (Sid 0) = None.
+Proof. exists kh_F7. vm_compute. splits; reflexivity. Qed.
+
+(** C18-F8: the RuleSet is deleted and re-created under the same name (new UID) while the watch is broken *)
+Definition kh_F8 : list k8s_event := [KWatch WAdded (mko 0 0 true 1 1); KRelist [mko 0 1 true 1 2]].
+
+Theorem k8s_F8_refuted :
+  exists h, k8s_wf 1 h = true /\ k8s_guard_F8 1 h = true /\ k8s_guard_F7 1 h = false /\
+            trace_ok (accepts O_all) (norm_trace (k8s_raw_trace O_all true false 1 h)) <> true /\
+            active_of (k8s_raw_trace O_all true false 1 h) (Sid 0) = Some 1 /\
+            active_of (k8s_raw_trace O_all true false 1 h) (Sid 1) = None /\
+            trace_ok (accepts O_all) (norm_trace (k8s_raw_trace O_all true true 1 h)) = true /\
+            active_of (k8s_raw_trace O_all true true 1 h) (Sid 0) = None /\
+            active_of (k8s_raw_trace O_all true true 1 h) (Sid 1) = Some 2.
+Proof. exists kh_F8. vm_compute. splits; try reflexivity. discriminate. Qed.
+
 Definition kh_nonvacuous : list k8s_event :=
-  let o u cls gen c := {| k_uid := u; k_cls := cls; k_gen := gen; k_cid := c |} in
-  [(WAdded, o 0 true 1 1); (WModified, o 0 true 1 1); (WModified, o 0 true 2 2); (WModified, o 0 true 3 3);
-   (WModified, o 0 false 4 3); (WModified, o 0 true 5 2); (WAdded, o 0 true 5 2); (WDeleted, o 0 true 5 2);
-   (WDeleted, o 0 true 5 2); (WAdded, o 1 true 1 3); (WModified, o 1 true 2 4); (WDeleted, o 1 true 2 4)].
+  [KWatch WAdded (mko 0 0 true 1 1); KWatch WModified (mko 0 0 true 1 1); KWatch WModified (mko 0 0 true 2 2);
+   KWatch WModified (mko 0 0 true 3 3); KWatch WModified (mko 0 0 false 4 3); KWatch WModified (mko 0 0 true 5 2);
+   KWatch WAdded (mko 1 1 true 1 4);
+   KRelist [mko 0 0 true 6 5; mko 2 2 true 1 6];          (* name 1 was deleted while the watch was broken *)
+   KWatch WDeleted (mko 0 0 true 6 5)].
 
 Example k8s_nonvacuous :
-  k8s_wf kh_nonvacuous = true /\
-  flat_map (fun st => filter p_ok (t_calls st)) (norm_trace (k8s_raw_trace O_rej3 kh_nonvacuous)) =
+  k8s_wf 3 kh_nonvacuous = true /\ k8s_guard_F8 3 kh_nonvacuous = false /\
+  flat_map (fun st => filter p_ok (t_calls st)) (norm_trace (k8s_raw_trace O_rej3 true false 3 kh_nonvacuous)) =
   [ {| p_kind := KCreated; p_src := Sid 0; p_cid := Some 1; p_ok := true |};
     {| p_kind := KUpdated; p_src := Sid 0; p_cid := Some 2; p_ok := true |};
     {| p_kind := KDeleted; p_src := Sid 0; p_cid := None; p_ok := true |};
     {| p_kind := KCreated; p_src := Sid 0; p_cid := Some 2; p_ok := true |};
-    {| p_kind := KDeleted; p_src := Sid 0; p_cid := None; p_ok := true |};
     {| p_kind := KCreated; p_src := Sid 1; p_cid := Some 4; p_ok := true |};
-    {| p_kind := KDeleted; p_src := Sid 1; p_cid := None; p_ok := true |} ].
-Proof. vm_compute. split; reflexivity. Qed.
+    {| p_kind := KUpdated; p_src := Sid 0; p_cid := Some 5; p_ok := true |};
+    {| p_kind := KCreated; p_src := Sid 2; p_cid := Some 6; p_ok := true |};
+    {| p_kind := KDeleted; p_src := Sid 1; p_cid := None; p_ok := true |};
+    {| p_kind := KDeleted; p_src := Sid 0; p_cid := None; p_ok := true |} ].
+Proof. vm_compute. splits; reflexivity. Qed.
